@@ -1,0 +1,21 @@
+//go:build verif
+
+package lexer
+
+// Verification hooks (build tag verif).
+
+const verifOn = true
+
+// VerifTick, when non nil, is called once per iteration of Lexer.Next's scanning loop.
+var VerifTick func()
+
+func verifTick() {
+	if VerifTick != nil {
+		VerifTick()
+	}
+}
+
+// VerifTLexerState exposes the transaction bookkeeping of a TLexer.
+func (tl *TLexer) VerifTLexerState() (readp, writep int, pointers []int) {
+	return tl.readp, tl.writep, append([]int{}, tl.pointers...)
+}
